@@ -227,6 +227,76 @@ pub fn run(thorough: bool, seed: u64, _replay: Option<String>) -> Report {
             }
         }
     }
+    // (4) … nor of which *other* texts the process analysed before: a text and its "code-unit siblings" (every
+    // character replaced by the character whose code point has the same low 16 / low 8 bits, or the same offset in
+    // another plane) asked one after the other, then each again on cold caches – supplementary-plane texts in the
+    // three encodings able to carry them
+    {
+        let astral: Vec<String> = vec![
+            (0..48u32).filter_map(|i| char::from_u32(0x20021 + i)).collect(),
+            (0..40u32).filter_map(|i| char::from_u32(0x1f600 + i)).collect(),
+            (0..52u32).filter_map(|i| char::from_u32(0x1d400 + i)).collect(),
+            (0..40u32).filter_map(|i| char::from_u32(0x20bb7 + 3 * i)).collect(),
+            format!("{} {}", TEXTS[1].1, (0..30u32).filter_map(|i| char::from_u32(0x2f800 + i)).collect::<String>()),
+            TEXTS[2].1.chars().take(120).collect(),
+            TEXTS[4].1.chars().take(120).collect(),
+        ];
+        let alias = |c: char, how: usize| -> char {
+            let u = c as u32;
+            let v = match how {
+                0 => u & 0xffff,
+                1 => u & 0xff,
+                2 => (u & 0xffff) + 0x10000,
+                3 => (u & 0xffff) + 0x20000,
+                _ => u ^ 0x10000,
+            };
+            char::from_u32(v).filter(|x| !x.is_control()).unwrap_or(c)
+        };
+        for (k, t) in astral.iter().enumerate() {
+            for how in 0..5usize {
+                if !thorough && (k + how) % 2 == 1 {
+                    continue;
+                }
+                let sib: String = t.chars().map(|c| alias(c, how)).collect();
+                if &sib == t {
+                    continue;
+                }
+                for e in ["utf-8", "utf-16le", "gb18030"] {
+                    let enc = |x: &str| -> Option<Vec<u8>> {
+                        let mut b = enc_bytes(x, e)?;
+                        if e == "utf-16le" {
+                            let mut m = vec![0xff, 0xfe];
+                            m.append(&mut b);
+                            b = m;
+                        }
+                        Some(b)
+                    };
+                    let (bt, bs) = match (enc(t), enc(&sib)) {
+                        (Some(a), Some(b)) => (a, b),
+                        _ => continue,
+                    };
+                    let mut s = Sett::default();
+                    s.fb = false;
+                    s.pre = false;
+                    s.incl = vec![e.to_string()];
+                    for (first, second, tag) in [(&bs, &bt, "sibling-first"), (&bt, &bs, "text-first")] {
+                        charset_normalizer_rs::verif_hooks::flush_caches();
+                        let cold = real_detect(second, &s);
+                        charset_normalizer_rs::verif_hooks::flush_caches();
+                        let _ = real_detect(first, &s);
+                        let warm = real_detect(second, &s);
+                        rep.evaluations += 1;
+                        rep.oracle_checked += 1;
+                        rep.count(&format!("oracle:sibling-history:{}", e));
+                        if cold != warm {
+                            rep.fail("oracle", "C13:chaos-depends-on-earlier-texts", &format!("{} ({}, siblings by rule {}): after the other text {} || alone: {}", e, tag, how, warm.show(), cold.show()), second, Some(&s), tag);
+                        }
+                    }
+                }
+            }
+        }
+        charset_normalizer_rs::verif_hooks::flush_caches();
+    }
     rep.model_rounds = drv.requests;
     rep
 }
